@@ -161,6 +161,8 @@ def canon(ffi, lib, r, keep):
                 v = getattr(r, fname)
                 out.append(canon(ffi, lib, v, keep))
             return ["struct", ct.cname, out]
+        if ct.kind == "array":
+            return ["array", [canon(ffi, lib, r[i], keep) for i in range(len(r))]]
         if ct.kind == "primitive":      # long double
             return ["cdata", ct.cname, fbits(float(r))]
         return ["cdata", ct.cname]
